@@ -10,3 +10,8 @@ package ssh
 // (see verif_hooks.go) a simulation harness may edit the KEXINIT message
 // before it is sent, e.g. to act as a peer that does not offer strict KEX.
 func verifAdjustKexInit(isServer, firstKex bool, msg *kexInitMsg) {}
+
+// verifBeforeWrite is a no-op in normal builds. With the "verif" build tag a
+// simulation harness may have the transport send extra packets (IGNORE,
+// DEBUG) in front of packet, like a peer that interleaves such messages.
+func verifBeforeWrite(t *transport, packet []byte) error { return nil }
